@@ -88,12 +88,16 @@ func runC44(c *an.Ctx) {
 			blocked[r] = true
 		}
 		infeasible, proofs := cx.zeroTripInfeasible(fn)
+		first := c44FirstTrip(fn)
+		if len(first) > 0 {
+			proofs += "; a counted loop starting at 0 below a proven positive bound runs its body at least once"
+		}
 		for _, b := range fn.Blocks {
 			if !c44IsLoopHeader(b) || len(b.Instrs) == 0 || c44BoundedLoop(b) {
 				continue // range over a finite collection / counted loop: bounded by construction
 			}
 			nHdr++
-			spin := c44CycleThrough(fn, b, infeasible, blocked)
+			spin := c44CycleThrough(fn, b, infeasible, blocked, first)
 			c.Check(!spin, "O1", "R-PROG", name, "loop:"+c44LoopName(b)+"=>consumes-key-channel", c44BlockPos(b),
 				"every iteration of this loop receives from the key channel (directly or through a helper that always does) or returns ("+proofs+")",
 				"a cycle through this loop header neither receives from the key channel nor returns: whenever the drain loop is not entered (trip count 0 because the batch size is 0, or its entry condition is already false, e.g. because entries parked in the pending map count against the limit) the channel is never read, 'all processed' is never set and Reprovide spins forever; entering the drain loop is not proven")
@@ -353,11 +357,15 @@ func runC44(c *an.Ctx) {
 					"between two receives the key is either a visited duplicate or is offered to the output", "a received key can be dropped (next receive reached without the send and without visited.Has being true): not every key of every stream is emitted")
 			}
 			// marking coupled with the send when markVisited
-			var mark ssa.Value
+			var mark []ssa.Value
 			for _, prm := range fn.Params {
 				if b, ok := prm.Type().Underlying().(*types.Basic); ok && b.Kind() == types.Bool {
-					mark = prm
+					mark = []ssa.Value{prm}
 				}
+			}
+			if mark == nil {
+				// the flag travels in a boolean field of a struct parameter
+				mark = c44BoolFieldReads(fn)
 			}
 			marks := map[ssa.Instruction]bool{}
 			for _, m := range an.Calls(fn, an.M(c44Cid, "Set", "Visit"), an.M(c44Cid, "Set", "Add")) {
@@ -367,7 +375,7 @@ func runC44(c *an.Ctx) {
 			}
 			cut := c44SelectOtherCase(fn, s, idx)
 			if mark != nil {
-				cut = cut.Union(an.BoolEdges(fn, []ssa.Value{mark}, false))
+				cut = cut.Union(an.BoolEdges(fn, mark, false))
 			}
 			okMark := len(marks) > 0
 			if okMark {
@@ -410,13 +418,27 @@ func runC44(c *an.Ctx) {
 			forwarded := false
 			top := false
 			for i, prm := range g.Params {
-				if b, ok := prm.Type().Underlying().(*types.Basic); ok && b.Kind() == types.Bool && i < len(call.Common().Args) {
-					if _, isPrm := call.Common().Args[i].(*ssa.Parameter); isPrm {
+				if i >= len(call.Common().Args) {
+					continue
+				}
+				flag := call.Common().Args[i]
+				isFlag := false
+				if b, ok := prm.Type().Underlying().(*types.Basic); ok && b.Kind() == types.Bool {
+					isFlag = true
+				} else if k := c44BoolField(prm.Type()); k >= 0 {
+					// the flag travels in the boolean field of a struct argument
+					isFlag = true
+					if fs, ok := c24LitFields(flag); ok && fs[k] != nil {
+						flag = fs[k]
+					}
+				}
+				if isFlag {
+					if _, isPrm := flag.(*ssa.Parameter); isPrm {
 						forwarded = true // a wrapper passing its own flag on: judged at the outer call
 						continue
 					}
 					top = true
-					st, why := c44NonLastArg(call.Common().Args[i])
+					st, why := c44NonLastArg(flag)
 					switch st {
 					case 1:
 						c.OK("O4", "R-CMP", fname, "markVisited=index<last", call.Pos(), "markVisited is true for every stream but the last ("+why+")")
@@ -785,9 +807,10 @@ func (cx *c44Ctx) solve() {
 				blocked[e] = true
 			}
 			cut, _ := c44ZeroTripInfeasible(h)
+			first := c44FirstTrip(h)
 			all := true
 			for _, r := range an.Returns(h) {
-				if an.Reaches(h, nil, r, cut, blocked) {
+				if c44ReachesF(h, r, cut, blocked, first) {
 					all = false
 				}
 			}
@@ -1244,30 +1267,128 @@ func c44LoopName(b *ssa.BasicBlock) string {
 	return fmt.Sprintf("%s#%d", b.Comment, n)
 }
 
+// c44FirstTrip: counted loops `for i := 0; i < B; ..` with B proven >= 1: maps
+// the loop header to the successor index (the exit) that cannot be taken when
+// the header is entered from outside the loop, i.e. with i == 0.
+func c44FirstTrip(fn *ssa.Function) map[*ssa.BasicBlock]int {
+	out := map[*ssa.BasicBlock]int{}
+	for _, h := range fn.Blocks {
+		if !c44IsLoopHeader(h) || len(h.Instrs) == 0 {
+			continue
+		}
+		ifi, ok := h.Instrs[len(h.Instrs)-1].(*ssa.If)
+		if !ok {
+			continue
+		}
+		cmp, ok := ifi.Cond.(*ssa.BinOp)
+		if !ok {
+			continue
+		}
+		idx, bound := cmp.X, cmp.Y
+		switch cmp.Op {
+		case token.LSS:
+		case token.GTR:
+			idx, bound = bound, idx
+		default:
+			continue
+		}
+		phi, ok := idx.(*ssa.Phi)
+		if !ok || phi.Block() != h || !c44Induction(phi) {
+			continue
+		}
+		// 0 on every edge entering the loop, anything on the back edges
+		zero := true
+		for i, p := range h.Preds {
+			if h.Dominates(p) {
+				continue
+			}
+			k, isK := an.ConstOf(phi.Edges[i])
+			if !isK || k.Kind() != constant.Int || constant.Sign(k) != 0 {
+				zero = false
+			}
+		}
+		if !zero {
+			continue
+		}
+		if ok, _ := c44Positive(fn, bound, 0); ok {
+			out[h] = 1 // the false edge of `0 < B`
+		}
+	}
+	return out
+}
+
+// c44ReachesF: an.Reaches from the function entry, with first-trip exits of
+// counted loops (c44FirstTrip) not taken when the loop is entered from outside.
+func c44ReachesF(fn *ssa.Function, to ssa.Instruction, cut an.EdgeSet, blocked map[ssa.Instruction]bool, first map[*ssa.BasicBlock]int) bool {
+	if len(fn.Blocks) == 0 || to.Parent() != fn {
+		return false
+	}
+	type state struct {
+		b       *ssa.BasicBlock
+		outside bool
+	}
+	seen := map[state]bool{}
+	var walk func(from, x *ssa.BasicBlock) bool
+	walk = func(from, x *ssa.BasicBlock) bool {
+		outside := from == nil || !x.Dominates(from)
+		if seen[state{x, outside}] {
+			return false
+		}
+		seen[state{x, outside}] = true
+		for _, in := range x.Instrs {
+			if in == to {
+				return true
+			}
+			if blocked[in] {
+				return false
+			}
+		}
+		skip, has := first[x]
+		for i, s := range x.Succs {
+			if cut[an.Edge{From: x, Succ: i}] || (has && outside && i == skip) {
+				continue
+			}
+			if walk(x, s) {
+				return true
+			}
+		}
+		return false
+	}
+	return walk(nil, fn.Blocks[0])
+}
+
 // c44CycleThrough: can control return to block b from b's terminator without
-// crossing cut edges / executing blocked instructions?
-func c44CycleThrough(fn *ssa.Function, b *ssa.BasicBlock, cut an.EdgeSet, blocked map[ssa.Instruction]bool) bool {
-	seen := map[*ssa.BasicBlock]bool{}
-	var walk func(x *ssa.BasicBlock) bool
-	walk = func(x *ssa.BasicBlock) bool {
+// crossing cut edges / executing blocked instructions? first-trip exits of
+// counted loops (c44FirstTrip) are not taken when such a loop is entered from
+// outside.
+func c44CycleThrough(fn *ssa.Function, b *ssa.BasicBlock, cut an.EdgeSet, blocked map[ssa.Instruction]bool, first map[*ssa.BasicBlock]int) bool {
+	type state struct {
+		b       *ssa.BasicBlock
+		outside bool
+	}
+	seen := map[state]bool{}
+	var walk func(from, x *ssa.BasicBlock) bool
+	walk = func(from, x *ssa.BasicBlock) bool {
 		// entering x
 		if x == b {
 			return true
 		}
-		if seen[x] {
+		outside := !x.Dominates(from)
+		if seen[state{x, outside}] {
 			return false
 		}
-		seen[x] = true
+		seen[state{x, outside}] = true
 		for _, in := range x.Instrs {
 			if blocked[in] {
 				return false
 			}
 		}
+		skip, has := first[x]
 		for i, s := range x.Succs {
-			if cut[an.Edge{From: x, Succ: i}] {
+			if cut[an.Edge{From: x, Succ: i}] || (has && outside && i == skip) {
 				continue
 			}
-			if walk(s) {
+			if walk(x, s) {
 				return true
 			}
 		}
@@ -1283,7 +1404,7 @@ func c44CycleThrough(fn *ssa.Function, b *ssa.BasicBlock, cut an.EdgeSet, blocke
 		if cut[an.Edge{From: b, Succ: i}] {
 			continue
 		}
-		if walk(s) {
+		if walk(b, s) {
 			return true
 		}
 	}
@@ -1990,4 +2111,49 @@ func c44LeavesLoop(start, hdr *ssa.BasicBlock, loop map[*ssa.BasicBlock]bool) bo
 		return false
 	}
 	return walk(start)
+}
+
+// c44BoolField: t is a struct with exactly one boolean field: its index (else -1).
+func c44BoolField(t types.Type) int {
+	st, ok := t.Underlying().(*types.Struct)
+	if !ok {
+		return -1
+	}
+	k := -1
+	for i := 0; i < st.NumFields(); i++ {
+		if b, ok := st.Field(i).Type().Underlying().(*types.Basic); ok && b.Kind() == types.Bool {
+			if k >= 0 {
+				return -1
+			}
+			k = i
+		}
+	}
+	return k
+}
+
+// c44BoolFieldReads: the reads, in fn, of the single boolean field of a struct
+// parameter of fn (nil when there is no such parameter or more than one).
+func c44BoolFieldReads(fn *ssa.Function) []ssa.Value {
+	var prm *ssa.Parameter
+	for _, p := range fn.Params {
+		if c44BoolField(p.Type()) >= 0 {
+			if prm != nil {
+				return nil
+			}
+			prm = p
+		}
+	}
+	if prm == nil {
+		return nil
+	}
+	k := c44BoolField(prm.Type())
+	var out []ssa.Value
+	an.Instrs(fn, func(in ssa.Instruction) {
+		if v, ok := in.(ssa.Value); ok {
+			if p, kk, ok := c24ParamField(v); ok && p == prm && kk == k {
+				out = append(out, v)
+			}
+		}
+	})
+	return out
 }
